@@ -170,6 +170,7 @@ fn no_activation() -> Option<usize> {
 #[kani::stub(crate::client::get_abstract_unixstream, abstract_stream_stub)]
 #[kani::stub(activation_listener, no_activation)]
 #[kani::stub(core::slice::memchr::memchr, crate::verif_lib::stubs::naive_memchr)]
+#[kani::stub(core::slice::memchr::memrchr, crate::verif_lib::stubs::naive_memrchr)]
 #[kani::stub(alloc::fmt::format, crate::verif_lib::stubs::format)]
 fn c16_scheme() {
     let a = draw_addr(&mut KSrc);
